@@ -169,7 +169,7 @@ def plan(tier):
         shards.append({"kind": "odd-parents", "index": i})
     for i in range(len(HISTORY_OPS)):
         shards.append({"kind": "histories", "first": i})
-    shards += H.plan_shards(['nested-revisions', 'minor-versions', 'shared-arguments', 'wide-revisions'])
+    shards += H.plan_shards(['nested-revisions', 'minor-versions', 'shared-arguments', 'wide-revisions', 'legacy-repeats'])
     return shards
 
 
